@@ -147,9 +147,46 @@ def has_at_literal(tree, classic):
     return False
 
 
+def has_quoted_symbol(tree):
+    """a `(q . NAME)` / `(quote NAME)` form: a quoted bare identifier."""
+    if tree[0] != "list":
+        return False
+    it = tree[1]
+    if it and it[0] == ("sym", "q") and len(it) == 1 and tree[2] is not None and tree[2][0] == "sym":
+        return True
+    if len(it) == 2 and it[0] == ("sym", "quote") and it[1][0] == "sym" and tree[2] is None:
+        return True
+    return any(has_quoted_symbol(x) for x in it) or (tree[2] is not None and has_quoted_symbol(tree[2]))
+
+
+def inline_with_toplevel_capture(tree):
+    """a defun-inline whose whole parameter list is an `(@ name pattern)` capture."""
+    for f in tree[1]:
+        if f[0] == "list" and len(f[1]) == 4 and f[1][0] == ("sym", "defun-inline"):
+            ps = f[1][2]
+            if ps[0] == "list" and ps[2] is None and len(ps[1]) == 3 and ps[1][0] == ("sym", "@") and ps[1][1][0] == "sym":
+                return True
+    return False
+
+
+def has_at_bytes_literal(tree):
+    """a string or hex literal whose bytes are `@` (0x40)."""
+    if tree[0] in ("hex", "str"):
+        return tree[1] == b"@"
+    if tree[0] == "list":
+        return any(has_at_bytes_literal(x) for x in tree[1]) or (tree[2] is not None and has_at_bytes_literal(tree[2]))
+    return False
+
+
 def classify(pid, p, entry, src_out, impl_out, proghex):
     """signature of an oracle failure (used to match known findings)."""
     d = p["dialect"]
+    if d != "classic" and inline_with_toplevel_capture(p["tree"]):
+        return "compile:inline-toplevel-capture"
+    if d == "cl21" and has_at_bytes_literal(p["tree"]):
+        return "compile:cl21-macro-arg-at-literal"
+    if d != "classic" and has_quoted_symbol(p["tree"]) and "5f245f" in proghex:
+        return "compile:quoted-bound-name-renamed"
     if d == "cl22" and leaked_names(p, proghex):
         return "compile:cl22-feopt-leaked-name"
     if d == "strict21" and optimizing(entry) and "ff0140" in proghex:
@@ -301,3 +338,192 @@ def core_correspondence(chk, rng, n, dialects=("cl21",)):
                              {"evalCore": x, "evalSrc": z})
         if progs:
             chk.sample({"core_program": progs[0]["text"][:300], "model": mo[0][:200]})
+
+
+CORE2_FEATURES = CORE_FEATURES + ["inlines", "lets", "dotcall", "shadow"]
+CORE2_DENSE = ["functions", "destructure", "captures", "literals", "inlines", "lets", "dotcall", "dense", "shadow"]
+CORE2_INLINES = ["functions", "destructure", "captures", "literals", "manyparams", "inlines", "dotcall", "dense"]
+CORE2_MAX_LINE = 12000
+
+
+def core2_classes(tree):
+    """structural classes of a core2 program (for the evidence distribution): which of the situations
+    the expansion lemma case-splits on occur."""
+    forms = tree[1]
+    inl, fun = {}, {}
+    for f in forms:
+        if f[0] == "list" and len(f[1]) == 4 and f[1][0][0] == "sym" and f[1][0][1] in ("defun", "defun-inline"):
+            (inl if f[1][0][1] == "defun-inline" else fun)[f[1][1][1]] = (f[1][2], f[1][3])
+    tags = set()
+
+    def count_sym(t, name):
+        if t[0] == "sym":
+            return 1 if t[1] == name else 0
+        if t[0] == "list":
+            return sum(count_sym(x, name) for x in t[1]) + (count_sym(t[2], name) if t[2] is not None else 0)
+        return 0
+
+    def names_of(pat, acc):
+        if pat[0] == "sym":
+            acc.append(pat[1])
+        elif pat[0] == "list":
+            it = pat[1]
+            if len(it) == 3 and it[0] == ("sym", "@") and pat[2] is None:
+                acc.append(it[1][1])
+                names_of(it[2], acc)
+            else:
+                for x in it:
+                    names_of(x, acc)
+                if pat[2] is not None:
+                    names_of(pat[2], acc)
+        return acc
+
+    def walk(t, where):
+        if t[0] != "list" or not t[1]:
+            return
+        h = t[1][0]
+        if h[0] == "sym":
+            if h[1] in inl:
+                tags.add("inline-call-in-" + where)
+                pat = inl[h[1]][0]
+                nparams = len(pat[1]) if pat[0] == "list" else 0
+                nargs = len(t[1]) - 1
+                if nargs > nparams:
+                    tags.add("inline-surplus-args" + ("-dotted" if pat[0] == "list" and pat[2] is not None else "-dropped"))
+                if any(x[0] == "list" and x[1] and x[1][0][0] == "sym" and x[1][0][1] in inl for x in t[1][1:]):
+                    tags.add("inline-call-as-inline-argument")
+            elif h[1] in fun:
+                tags.add("function-call-in-" + where)
+            elif h[1] in ("let", "let*"):
+                tags.add(h[1] + "-in-" + where)
+                if len(t[1]) == 3 and t[1][1][0] == "list":
+                    for b in t[1][1][1]:
+                        if b[0] == "list" and len(b[1]) == 2:
+                            walk(b[1][1], where + "-binding")
+                    walk(t[1][2], where + "-letbody" if not where.endswith("-letbody") else where)
+                    return
+            elif h[1] == "q":
+                return
+        for x in t[1][1:]:
+            walk(x, where)
+
+    for name, (pat, body) in inl.items():
+        walk(body, "inline")
+        ns = names_of(pat, [])
+        cs = [count_sym(body, n) for n in ns]
+        if any(c == 0 for c in cs):
+            tags.add("inline-parameter-dropped")
+        if any(c >= 2 for c in cs):
+            tags.add("inline-parameter-duplicated")
+        if pat[0] == "list" and (pat[2] is not None or any(x[0] == "list" for x in pat[1])):
+            tags.add("inline-destructuring-parameters")
+    for name, (pat, body) in fun.items():
+        walk(body, "function")
+    walk(forms[-1], "main")
+    return tags
+
+
+def core2_correspondence(chk, rng, n, dialects=("cl21",), features=None, label="core2"):
+    """Layer B2 tie: `Core2.compileCore2` (Lean: inline expansion + let hoisting + core code generator)
+    must be byte-identical to the real compiler's non-optimising output on the core2 language (core +
+    defun-inline with destructuring parameters + let/let*), every generated program must satisfy the
+    theorem's decidable hypothesis `Core2.progWF`, and `Core2.evalProg` must agree with `Lang.evalSrc`
+    (and, one-directionally, with the compiled run)."""
+    feats = features if features is not None else CORE2_FEATURES
+    for d in dialects:
+        progs = gen_programs(rng, d, n, nargs=3, features=feats)
+        ml = [p["rich"] + " " + " ".join(gen.hexv(a) for a in p["args"]) for p in progs]
+        mo = lib.run_model("core2", ml, per_job=20)
+        so = lib.run_model("src", ml, per_job=20)
+        # call-by-name expansion can blow the emitted code up exponentially (the real compiler then
+        # needs minutes): only programs whose model output is below a size bound go to the real compiler
+        sel = [i for i, a in enumerate(mo) if a.startswith("nocompile") or (a.startswith("K ") and len(a) <= CORE2_MAX_LINE)]
+        io_sel = lib.run_impl("compile", ["text:O0 " + progs[i]["text"].encode().hex() + " " + " ".join(gen.hexv(a) for a in progs[i]["args"])
+                                          for i in sel], per_job=4, timeout=60)
+        io = ["skipped"] * len(progs)
+        for i, b in zip(sel, io_sel):
+            io[i] = b
+        for p, a, s, b in zip(progs, mo, so, io):
+            af, sf, bf = a.split(), s.split(), b.split()
+            chk.count(f"{label}:{d}:{af[0] if af else 'none'}")
+            if not af or af[0] not in ("K", "nocompile"):
+                continue
+            if b == "skipped":
+                chk.count(f"{label}:{d}:skipped-large-output")
+                continue
+            uses = [k for k in ("inlines", "lets", "destructure", "captures", "dotcall", "shadow") if k in p["features"]]
+            chk.note_case((label, p["text"]), p["nfns"] > 0 or "lets" in p["features"])
+            if af[1] != "wf":
+                chk.count(f"{label}:{d}:notwf")
+                chk.fail("correspondence", "corr:core2-progWF", {"dialect": d, "program": p["text"]},
+                         "generated core2 program does not satisfy the theorem's hypothesis Core2.progWF")
+            if af[0] == "nocompile":
+                if bf and bf[0] == "C":
+                    chk.fail("correspondence", "corr:core2-model-rejects", {"dialect": d, "program": p["text"]},
+                             "the real compiler accepts a core2 program the model does not compile")
+                continue
+            if not bf or bf[0] != "C":
+                chk.count(f"{label}:{d}:impl-{bf[0] if bf else 'none'}")
+                if bf and bf[0] == "E":
+                    chk.fail("correspondence", "corr:core2-impl-rejects", {"dialect": d, "program": p["text"]}, b[:200])
+                continue
+            for u in uses:
+                chk.count(f"{label}:{d}:uses-{u}")
+            for tag in core2_classes(p["tree"]):
+                chk.count(f"core2-class:{tag}")
+            if af[2] != bf[1]:
+                chk.count(f"{label}:{d}:BYTES-DIFFER")
+                chk.fail("correspondence", "corr:core2-compile-bytes", {"dialect": d, "program": p["text"]},
+                         {"model": af[2][:400], "impl": bf[1][:400]})
+                # search for a failing input: does the real output still compute the source meaning?
+                for k, (x, y) in enumerate(zip(sf[1:], bf[2:])):
+                    if x[0] == "V" and x != y:
+                        chk.fail("oracle", classify("C01", p, "text:O0", x, y, bf[1]),
+                                 {"dialect": d, "entry": "text:O0", "program": p["text"], "args": gen.hexv(p["args"][k])},
+                                 {"source_meaning": x, "compiled_result": y})
+            else:
+                chk.count(f"{label}:{d}:bytes-equal")
+            for k, (x, y, z) in enumerate(zip(af[3:], bf[2:], sf[1:])):
+                chk.count(f"{label}:eval2-{x[0]}/src-{z[0]}/impl-{y[0]}")
+                if (x[0] == "V" or z[0] == "V") and x[0] != "U" and z[0] != "U" and x != z:
+                    chk.fail("correspondence", "corr:core2-vs-src-semantics", {"program": p["text"], "args": gen.hexv(p["args"][k])},
+                             {"Core2.evalProg": x, "evalSrc": z})
+                if x[0] == "V" and x != y:
+                    # the theorem's conclusion, observed on the real compiler's output
+                    chk.fail("oracle", classify("C01", p, "text:O0", x, y, bf[1]),
+                             {"dialect": d, "entry": "text:O0", "program": p["text"], "args": gen.hexv(p["args"][k])},
+                             {"source_meaning": x, "compiled_result": y})
+        if progs:
+            k = next((i for i, p in enumerate(progs) if "inlines" in p["features"] and "lets" in p["features"] and mo[i].startswith("K")), 0)
+            chk.sample({"core2_program": progs[k]["text"][:400], "model": mo[k][:200]})
+
+
+def quoted_name_probe(chk, rng, dialects=("cl21", "strict21", "cl23", "cl24")):
+    """a quoted bare identifier that is spelled like a bound variable (function / inline parameter,
+    let name): its source meaning is the identifier's bytes."""
+    S, L, I = progen.S, progen.L, progen.I
+    cases = []
+    for d in dialects:
+        sig = L(S("include"), S(progen.SIGILS[d]))
+        nm = rng.choice(["A", "Bq", "val", "N1"])
+        q = rng.choice([lambda x: L(S("q"), tail=S(x)), lambda x: L(S("quote"), S(x))])
+        cases.append((d, L(S("mod"), L(S("X")), sig, L(S("defun"), S("F"), L(S(nm)), q(nm)), L(S("F"), S("X")))))
+        cases.append((d, L(S("mod"), L(S("X")), sig, L(S("defun-inline"), S("G"), L(S(nm)), L(S("c"), S(nm), q(nm))), L(S("G"), S("X")))))
+        cases.append((d, L(S("mod"), L(S("X")), sig, L(S("let"), L(L(S(nm), L(S("+"), S("X"), I(1)))), L(S("c"), S(nm), q(nm))))))
+        cases.append((d, L(S("mod"), L(S("X")), sig, q("X"))))                       # main parameters are not renamed
+        cases.append((d, L(S("mod"), L(S("X")), sig, L(S("defun"), S("F"), L(S(nm)), L(S("q"), tail=L(S(nm)))), L(S("F"), S("X")))))  # quoted list: kept
+    # C01-F8: a string / hex literal spelling `@` as a macro argument in cl21
+    sig21 = L(S("include"), S(progen.SIGILS["cl21"]))
+    cases.append(("cl21", L(S("mod"), L(S("X")), sig21, L(S("list"), ("hex", b"@"), S("X")))))
+    cases.append(("cl21", L(S("mod"), L(S("X")), sig21, L(S("c"), ("hex", b"@"), S("X")))))       # no macro: quoted
+    # C01-F9: an inline function whose whole parameter list is a capture
+    for d in dialects:
+        sig = L(S("include"), S(progen.SIGILS[d]))
+        ps = L(S("@"), S("Q"), L(S("A"), S("B")))
+        cases.append((d, L(S("mod"), L(S("X")), sig, L(S("defun-inline"), S("F"), ps, L(S("c"), S("Q"), S("A"))), L(S("F"), S("X"), I(2), I(3)))))
+        cases.append((d, L(S("mod"), L(S("X")), sig, L(S("defun"), S("F"), ps, L(S("c"), S("Q"), S("A"))), L(S("F"), S("X"), I(2), I(3)))))   # non-inline: fine
+    progs = []
+    for d, tree in cases:
+        progs.append({"tree": tree, "text": progen.text(tree), "rich": progen.rich(tree), "dialect": d,
+                      "args": [gen.lst([gen.int_atom(rng.randint(1, 90))])], "nfns": 1, "features": ["quoted-name"]})
+    differential(chk, "C01", progs, entries=["text:O0"], label="quoted-name")
